@@ -20,7 +20,10 @@ STORIES = {
     "file-renamed-synced-name-reused": ["rename_a_b", "Q", "create_a"],
     "file-edited-synced-deleted": ["write_a", "Q", "delete_a"],
     "folder-renamed-synced-old-name-reused-with-child": ["rendir_d_e", "Q", "mkdir_d", "create_d_a"],
+    "folder-removed-with-its-content": ["delete_d_a", "rmdir_d"],
+    "renamed-away-and-another-renamed-onto-the-name": ["mv:/a:/c", "mv:/b:/a"],
 }
+STORY_BASE = {"folder-removed-with-its-content": 3, "renamed-away-and-another-renamed-onto-the-name": 3}
 
 
 class Mangler:
@@ -64,7 +67,7 @@ class Mangler:
                 if batch:
                     if not self.held and not out:
                         self.held = [batch[0]]
-                        self.countdown = 16
+                        self.countdown = 40
                         batch = batch[1:]
                     out = out + batch
                 return out
@@ -130,7 +133,7 @@ def run_once(params, script, mangle):
     """one engine run: script = list of ('op', side, opname, k) / ('step', which); returns (lab, history, outcome)"""
     _lab.reset()
     lab = Lab(params["flavour"])
-    if base_tree(lab, params["base"]) is None:
+    if base_tree(lab, STORY_BASE.get(params.get("story"), params["base"])) is None:
         return None
     m = None
     if mangle:
@@ -227,7 +230,7 @@ def _factory(params, env=None):
         def ms(calls, name):
             out = {}
             for c in calls:
-                if c[1] == name and not any(isinstance(x, dict) and x.get("existed") is False for x in c):       # a delete of an object that is already gone removes nothing
+                if c[1] == name and c[-1] == "ok" and not any(isinstance(x, dict) and x.get("existed") is False for x in c):       # a delete that is refused, or of an object that is already gone, removes nothing
                     key = (c[0], tuple(a for a in c[2] if isinstance(a, str)))
                     out[key] = out.get(key, 0) + 1
             return out
@@ -285,7 +288,7 @@ def meta(tier):
                        "(C01's subject).",
         "bounds": {"operations": OPS, "history": "1 operation + three 2-operation families, 1 slot (thorough: 2 operations); stories that use a name again after its first use was fully synchronised: %s" % STORIES, "manglings": MANGLE_ANY + MANGLE_IDSTABLE, "flavours": "oid, path (thorough + mixed, filtered)"},
         "symbolic": ["operations", "schedule slots", "mangling kind", "mangled side"],
-        "outside": ["combinations of several manglings in one run", "arbitrary permutations of long batches", "delays other than one call or sixteen calls"],
+        "outside": ["combinations of several manglings in one run", "arbitrary permutations of long batches", "delays other than one call or forty calls"],
         "stubs": ["engine lab determinisation", "mangling wrapper around provider.events()"],
         "assumptions": ["user operations are re-issued verbatim in both runs (checked: differing outcomes make the path inconclusive)"],
     }
